@@ -517,21 +517,62 @@ example : evalCall [arr (base .int CV.none) 2] Gen.Gcc.is_move_assignable_struct
 
 /-! ### numeric_limits of the integer types -/
 
-/-- the members of an integer specialisation, as the header computes them, are the mathematical ones:
-    `max = 2^digits − 1`, `min = −2^digits` (signed) or `0`, `digits` = value bits, `is_modulo` iff unsigned -/
-theorem intLimits_eq (bits : Nat) (sg : Bool) (hb : 1 ≤ bits) :
+/-- the closed forms of the hand model `intLimits` (Model.lean; what the driver prints for R1) are the mathematical
+    values, for every width: `max = 2^digits − 1`, `min = −2^digits` (signed) or `0`, `digits` = value bits, `is_modulo`
+    iff unsigned.  This is a statement about the MODEL's formula; that the header's own spelling (`<climits>` macros,
+    literals, the shift expression of `detail::integer_numeric_limits`) has these values is
+    `limits_spelled_members_eq` / `limits_template_eq` / `limits_model_eq_spelled` below. -/
+theorem intLimits_eq (bits : Nat) (sg : Bool) :
     let m := intLimits .plain bits sg
     let s := Spec.intLimits false bits sg
     m.isSigned = s.isSigned ∧ m.digits = s.digits ∧ m.min = s.min ∧ m.max = s.max ∧ m.lowest = s.lowest ∧
       m.isModulo = s.isModulo := by
   cases sg <;> simp [intLimits, Spec.intLimits]
 
-theorem intLimits_char_eq (bits : Nat) (sg : Bool) (hb : 1 ≤ bits) :
+theorem intLimits_char_eq (bits : Nat) (sg : Bool) :
     let m := intLimits .char bits sg
     let s := Spec.intLimits false bits sg
     m.isSigned = s.isSigned ∧ m.digits = s.digits ∧ m.min = s.min ∧ m.max = s.max ∧ m.lowest = s.lowest ∧
       m.isModulo = s.isModulo := by
   cases sg <;> simp [intLimits, Spec.intLimits]
+
+/-! #### the members as the header spells them (Tetl/C15/GenLimits.lean, extracted on every run by gen/c15_limits.py)
+
+`Gen.Limits.table`: for each of the sixteen integer types the expressions the preprocessed header writes for `is_signed`,
+`digits`, `digits10`, `min()`, `max()`, `lowest()`, `is_modulo`, `traps`; `LimExpr.eval` gives them their C++ meaning on
+LP64 (integral promotion, usual arithmetic conversions, signed overflow and bad shift counts are errors). -/
+
+/-- every one of the seven members [numeric.limits.members] fixes, AS SPELLED in the header, evaluates without undefined
+    behaviour to the prescribed value, for each of the sixteen integer types (complete finite check) -/
+theorem limits_spelled_members_eq : ∀ s ∈ Gen.Limits.table, Limits.specOk s = true := Limits.spelled_members_eq
+
+/-- the table is exactly the sixteen integer types and contains nothing the extractor did not understand -/
+theorem limits_table_complete :
+    Gen.Limits.table.map (·.ty) =
+      ["bool", "char", "signed char", "unsigned char", "char8_t", "wchar_t", "char16_t", "char32_t", "short",
+       "unsigned short", "int", "unsigned int", "long", "unsigned long", "long long", "unsigned long long"] ∧
+    Gen.Limits.table.all (fun s => !s.hasOpaque) = true ∧
+    (∀ sg : Bool, (Gen.Limits.integer_numeric_limits "T" (.blit sg)).hasOpaque = false) := Limits.table_complete
+
+/-- `detail::integer_numeric_limits<T, Signed>` (used for wchar_t, char16_t, char32_t) is right for EVERY width 8/16/32/64
+    and both signednesses, not only its three instantiations: `(((T(1) << (digits-1)) - 1) << 1) + 1` is `2^digits - 1`
+    with the shifts performed in the promoted type, `-max() - 1` does not overflow -/
+theorem limits_template_eq :
+    ∀ w ∈ [8, 16, 32, 64], ∀ sg : Bool,
+      Limits.membersOk ⟨w, sg⟩ (Gen.Limits.integer_numeric_limits "T" (.blit sg)) (Spec.intLimits false w sg) = true :=
+  Limits.integer_numeric_limits_template
+
+/-- no `<<` of the header has a negative left operand or a result outside the promoted type -/
+theorem limits_shifts_representable :
+    (∀ s ∈ Gen.Limits.table, ∀ T ∈ (LimExpr.ityOf s.ty).toList,
+      s.members.all (LimExpr.shiftsOk T s LimExpr.defaultFuel) = true) ∧
+    (∀ w ∈ [8, 16, 32, 64], ∀ sg : Bool,
+      let s := Gen.Limits.integer_numeric_limits "T" (.blit sg)
+      s.members.all (LimExpr.shiftsOk ⟨w, sg⟩ s LimExpr.defaultFuel) = true) := Limits.shiftsRepresentable
+
+/-- the hand model of Model.lean (all eight modelled members, `traps` included) IS what the header's expressions
+    evaluate to, for each of the sixteen types: R1 compares the driver's output of this model with the compiled header -/
+theorem limits_model_eq_spelled : ∀ s ∈ Gen.Limits.table, Defs.modelOk s = true := by decide +kernel
 
 /-- `numeric_limits<bool>` and `numeric_limits<char8_t>` (literal members) on an 8-bit byte -/
 theorem intLimits_bool_char8 :
@@ -541,6 +582,15 @@ theorem intLimits_bool_char8 :
     (let m := intLimits .char8 8 false; let s := Spec.intLimits false 8 false;
       m.isSigned = s.isSigned ∧ m.digits = s.digits ∧ m.digits10 = s.digits10 ∧ m.min = s.min ∧ m.max = s.max ∧
       m.isModulo = s.isModulo) := by decide
+
+/-- `traps`: every integer specialisation except `numeric_limits<bool>` says `true`, like the reference libstdc++ -/
+theorem intLimits_traps_partial (k : IntKind) (bits : Nat) (sg : Bool) (h : k ≠ .bool) :
+    (intLimits k bits sg).traps = Spec.intTraps false := by
+  cases k <;> first | exact absurd rfl h | rfl
+example : IntKind.char8 ≠ IntKind.bool := by decide
+/-- … and `numeric_limits<bool>::traps` is `false` where libstdc++ says `true` (known finding
+    F-C15-limits-bool-traps: the member is implementation-defined, libc++ and MSVC agree with tetl) -/
+theorem intLimits_traps_counterexample : (intLimits .bool 8 false).traps ≠ Spec.intTraps true := by decide
 
 /-- `digits10 = digits * 3 / 10` is `⌊digits · log10 2⌋` (the largest `k` with `10^k ≤ 2^digits`) for every
     width below 103 value bits — complete finite check -/
@@ -697,8 +747,8 @@ example : wf (fn (lref (base .cls ⟨true, false⟩)) .a2 CV.none .none true) = 
 /-- … and fails for a reference to a qualified function type and an array of references -/
 example : wf (lref (fn (base .void CV.none) .a0 ⟨true, false⟩ .none false)) = false := by decide
 example : wf (arr (lref (base .int CV.none)) 3) = false := by decide
-/-- the width hypotheses: every builtin type (up to 64 value bits) is below 103; 1 ≤ bits -/
-example : (64 : Nat) < 103 ∧ 1 ≤ (8 : Nat) := by decide
+/-- the width hypothesis: every builtin type (up to 64 value bits) is below 103 -/
+example : (64 : Nat) < 103 := by decide
 /-- sample evaluations (tests, not proofs): decay of `const int (&)[3]`, of `void() const &&`, make-pointer of a reference -/
 example : M.decay (lref (arr (base .int ⟨true, false⟩) 3)) = ptr (base .int ⟨true, false⟩) CV.none := by decide
 example : M.decay (fn (base .void CV.none) .a0 ⟨true, false⟩ .rref false) = fn (base .void CV.none) .a0 ⟨true, false⟩ .rref false := by decide
